@@ -212,6 +212,10 @@ type RunRecord struct {
 	WallMs    int64      `json:"wall_ms"`
 	Shrunk    string     `json:"shrunk,omitempty"`
 	Known     string     `json:"known,omitempty"`
+	// Unstable: the violation was observed in this run but did not show again when the
+	// same scenario was executed again in the same process (its occurrence depends on
+	// something the scenario does not decide); Replay then holds the unshrunk scenario.
+	Unstable bool `json:"unstable,omitempty"`
 }
 
 // WriteReplay stores a scenario with its violation and log.
